@@ -11,6 +11,8 @@ class RC:
     def __init__(self, prop, harness, source, rule, assumptions, quick, thorough, max_size, class_names=()):
         self.PROP, self.harness, self.source, self.RULE, self.ASSUMPTIONS = prop, harness, source, rule, assumptions
         self.quick, self.thorough, self.max_size = quick, thorough, max_size
+        self.extra = None          # extra(ev, failures, tier): further legs; appends (replay_path, signature)
+        self.extra_replay = None   # extra_replay(path) -> signature or None, for replay files the harness binary does not read
 
     def binary(self):
         return vbuild.harness(self.harness, 'asan', [self.source], libs=['-lrapidcheck'])
@@ -20,6 +22,8 @@ class RC:
 
     def classify(self, path):
         """Run a replay; returns None if it passes, else a signature string."""
+        if path.endswith('.json') and self.extra_replay:
+            return self.extra_replay(path)
         env = common.san_env()
         env['ASAN_OPTIONS'] += ':detect_leaks=1'
         p = subprocess.run([self.binary(), 'replay', path], env=env, stdout=subprocess.PIPE, stderr=subprocess.PIPE)
@@ -102,6 +106,8 @@ class RC:
                     print('INCONCLUSIVE: %s shard failure did not reproduce from %s' % (PROP, rp))
                 else:
                     failures.append((rp, sig))
+        if self.extra:
+            self.extra(ev, failures, tier)
         rcode = 0
         seen = set()
         for rp, sig in failures:
